@@ -29,3 +29,6 @@ func vRank(s string) int
 func vDocWithout(tag string, absent string) []byte
 func vSQLKind(q string) (int, int, bool, int)
 func vUnsupported(msg string)
+
+// vJSONUnmarshalUseNumber is json.Unmarshal with Decoder.UseNumber semantics (models only).
+func vJSONUnmarshalUseNumber(data []byte, v any) error
